@@ -224,6 +224,40 @@ Proof.
   rewrite orb_false_r. reflexivity.
 Qed.
 
+Lemma lookup_fail_all b : forall s k,
+  lookup (fail_all s b) k = if kmem k b && negb (is_done (lookup s k)) then Failed else lookup s k.
+Proof.
+  unfold fail_all. induction b as [|x b IH]; intros s k; cbn [fold_left kmem]; [reflexivity|].
+  rewrite IH. destruct (is_done (lookup s x)) eqn:Dx.
+  - destruct (key_eqb k x) eqn:Ek; cbn [orb]; [|reflexivity].
+    apply key_eqb_eq in Ek; subst. rewrite Dx. cbn [negb]. rewrite !andb_false_r. reflexivity.
+  - rewrite lookup_set. destruct (key_eqb k x) eqn:Ek; cbn [orb]; [|reflexivity].
+    apply key_eqb_eq in Ek; subst. rewrite Dx. cbn [is_done negb andb].
+    destruct (kmem x b); reflexivity.
+Qed.
+
+Lemma lookup_release_all b : forall s k,
+  lookup (release_all s b) k = if kmem k b && is_pending (lookup s k) then Failed else lookup s k.
+Proof.
+  unfold release_all. induction b as [|x b IH]; intros s k; cbn [fold_left kmem]; [reflexivity|].
+  rewrite IH. destruct (is_pending (lookup s x)) eqn:Px.
+  - rewrite lookup_set. destruct (key_eqb k x) eqn:Ek; cbn [orb]; [|reflexivity].
+    apply key_eqb_eq in Ek; subst. rewrite Px. cbn [is_pending andb].
+    destruct (kmem x b); reflexivity.
+  - destruct (key_eqb k x) eqn:Ek; cbn [orb]; [|reflexivity].
+    apply key_eqb_eq in Ek; subst. rewrite Px. rewrite !andb_false_r. reflexivity.
+Qed.
+
+(* a failed submission never overwrites "executed", a release touches nothing but "pending" *)
+Lemma fail_all_done s b k : is_done (lookup s k) = true -> lookup (fail_all s b) k = lookup s k.
+Proof. intros H. rewrite lookup_fail_all, H. cbn [negb]. rewrite andb_false_r. reflexivity. Qed.
+
+Lemma release_all_not_pending s b k : is_pending (lookup s k) = false -> lookup (release_all s b) k = lookup s k.
+Proof. intros H. rewrite lookup_release_all, H. rewrite andb_false_r. reflexivity. Qed.
+
+Lemma done_not_pending v : is_done v = true -> is_pending v = false.
+Proof. destruct v; try discriminate; reflexivity. Qed.
+
 Lemma kmem_remove_all k b l : kmem k (remove_all b l) = kmem k l && negb (kmem k b).
 Proof.
   unfold remove_all. induction l as [|x l IH]; cbn [filter kmem]; [reflexivity|].
@@ -307,29 +341,12 @@ Proof.
   destruct H as [H|H]; [|congruence]. apply btc_execute_untouched. exact H.
 Qed.
 
-Lemma step_inv ds s o : inv ds s -> inv ds (fst (step ds s o)).
-Proof.
-  destruct ds; try (intros; exact I). unfold inv. intros Hinv.
-  destruct o as [d|b|b|]; cbn [step].
-  - destruct (deliver BTC (st s) d) as [s' r] eqn:Ed. cbn [fst st inflight]. intros k Hk.
-    rewrite kmem_app in Hk. apply orb_true_iff in Hk as [Hk|Hk].
-    + replace s' with (fst (deliver BTC (st s) d)) by (rewrite Ed; reflexivity).
-      rewrite deliver_untouched; [apply Hinv; exact Hk|]. left. rewrite (Hinv k Hk). reflexivity.
-    + apply kmem_In in Hk. destruct (deliver_sound _ _ _ _ _ _ Ed Hk) as [_ [_ Hp]]. apply Hp; reflexivity.
-  - destruct (subset b (inflight s)) eqn:Es; cbn [fst st inflight]; [|exact Hinv].
-    intros k Hk. rewrite kmem_remove_all in Hk. apply andb_true_iff in Hk as [Hk Hnb].
-    rewrite lookup_set_all. destruct (kmem k b); [discriminate | apply Hinv; exact Hk].
-  - destruct (subset b (inflight s)) eqn:Es; cbn [fst st inflight]; [|exact Hinv].
-    intros k Hk. rewrite kmem_remove_all in Hk. apply andb_true_iff in Hk as [Hk Hnb].
-    rewrite lookup_set_all. destruct (kmem k b); [discriminate | apply Hinv; exact Hk].
-  - cbn [fst inflight kmem]. intros k Hk. discriminate.
-Qed.
-
-(* executed is final *)
+(* executed is final: no delivery, session end (successful or failed, of whichever of several
+   overlapping sessions), restart or release ever changes a record that says executed *)
 Lemma step_done_mono ds s o k :
-  inv ds s -> is_done (lookup (st s) k) = true -> is_done (lookup (st (fst (step ds s o))) k) = true.
+  is_done (lookup (st s) k) = true -> is_done (lookup (st (fst (step ds s o))) k) = true.
 Proof.
-  intros Hinv Hd. destruct o as [d|b|b|]; cbn [step].
+  intros Hd. destruct o as [d|b|b| |b]; cbn [step].
   - destruct (deliver ds (st s) d) as [s' r] eqn:Ed. cbn [fst st].
     replace s' with (fst (deliver ds (st s) d)) by (rewrite Ed; reflexivity).
     rewrite deliver_untouched; [exact Hd|]. left. apply eligible_done; exact Hd.
@@ -339,63 +356,61 @@ Proof.
     destruct (subset b (inflight s)); cbn [fst st]; [exact A | exact Hd].
   - destruct ds; cbn [fst st]; try exact Hd.
     destruct (subset b (inflight s)) eqn:Es; cbn [fst st]; [|exact Hd].
-    rewrite lookup_set_all. destruct (kmem k b) eqn:Ek; [|exact Hd].
-    (* k would be in flight, hence recorded pending, not executed *)
-    exfalso. pose proof (subset_kmem _ _ _ Es Ek) as Hin. cbn in Hinv. rewrite (Hinv k Hin) in Hd. discriminate.
+    rewrite fail_all_done; exact Hd.
   - exact Hd.
+  - destruct ds; cbn [fst st]; try exact Hd.
+    rewrite release_all_not_pending; [exact Hd | apply done_not_pending; exact Hd].
 Qed.
 
 (* at every step: what is handed to signing was neither executed nor in flight *)
 Lemma step_sound ds s o k :
   In k (signed_of (snd (step ds s o))) -> eligible ds (lookup (st s) k) = true.
 Proof.
-  destruct o as [d|b|b|]; cbn [step].
+  destruct o as [d|b|b| |b]; cbn [step].
   - destruct (deliver ds (st s) d) as [s' r] eqn:Ed. cbn [snd]. intros Hin.
     exact (proj1 (deliver_sound _ _ _ _ _ _ Ed Hin)).
   - destruct ds; try (cbn; contradiction). destruct (subset b (inflight s)); cbn; contradiction.
   - destruct ds; try (cbn; contradiction). destruct (subset b (inflight s)); cbn; contradiction.
   - cbn; contradiction.
+  - destruct ds; cbn; contradiction.
 Qed.
 
 Lemma trace_nth ds ops : forall s j sj oj,
-  inv ds s -> nth_error (trace ds s ops) j = Some (sj, oj) ->
-  inv ds sj /\ (exists o, nth_error ops j = Some o /\ oj = snd (step ds sj o)) /\
+  nth_error (trace ds s ops) j = Some (sj, oj) ->
+  (exists o, nth_error ops j = Some o /\ oj = snd (step ds sj o)) /\
   forall k, is_done (lookup (st s) k) = true -> is_done (lookup (st sj) k) = true.
 Proof.
-  induction ops as [|o r IH]; intros s j sj oj Hinv Hn; cbn [trace] in Hn; [destruct j; discriminate|].
+  induction ops as [|o r IH]; intros s j sj oj Hn; cbn [trace] in Hn; [destruct j; discriminate|].
   destruct (step ds s o) as [s' out] eqn:Es. destruct j as [|j]; cbn in Hn.
-  - inversion Hn; subst. split; [exact Hinv|]. split; [|auto].
+  - inversion Hn; subst. split; [|auto].
     exists o. split; [reflexivity | rewrite Es; reflexivity].
-  - assert (Hinv' : inv ds s') by (replace s' with (fst (step ds s o)) by (rewrite Es; reflexivity); apply step_inv; exact Hinv).
-    destruct (IH _ _ _ _ Hinv' Hn) as [A [B C]]. split; [exact A|]. split; [exact B|].
+  - destruct (IH _ _ _ _ Hn) as [B C]. split; [exact B|].
     intros k Hd. apply C. replace s' with (fst (step ds s o)) by (rewrite Es; reflexivity).
     apply step_done_mono; assumption.
 Qed.
 
 Lemma sound_at_every_step ds ops s j sj oj k :
-  inv ds s -> nth_error (trace ds s ops) j = Some (sj, oj) ->
+  nth_error (trace ds s ops) j = Some (sj, oj) ->
   eligible ds (lookup (st sj) k) = false -> ~ In k (signed_of oj).
 Proof.
-  intros Hinv Hn He Hin. destruct (trace_nth _ _ _ _ _ _ Hinv Hn) as [_ [[o [_ Ho]] _]]. subst oj.
+  intros Hn He Hin. destruct (trace_nth _ _ _ _ _ _ Hn) as [[o [_ Ho]] _]. subst oj.
   apply step_sound in Hin. congruence.
 Qed.
 
 Lemma never_resigned ds ops : forall s i j si oi sj oj k,
-  inv ds s ->
   nth_error (trace ds s ops) i = Some (si, oi) -> nth_error (trace ds s ops) j = Some (sj, oj) ->
   (i <= j)%nat -> is_done (lookup (st si) k) = true -> ~ In k (signed_of oj).
 Proof.
-  induction ops as [|o r IH]; intros s i j si oi sj oj k Hinv Hi Hj Hle Hd;
+  induction ops as [|o r IH]; intros s i j si oi sj oj k Hi Hj Hle Hd;
     [destruct i; discriminate|].
   destruct i as [|i].
   - assert (si = s).
     { cbn [trace] in Hi. destruct (step ds s o). cbn in Hi. inversion Hi; reflexivity. }
-    subst si. destruct (trace_nth _ _ _ _ _ _ Hinv Hj) as [_ [_ C]].
-    eapply sound_at_every_step; [exact Hinv | exact Hj |]. apply eligible_done. apply C. exact Hd.
+    subst si. destruct (trace_nth _ _ _ _ _ _ Hj) as [_ C].
+    eapply sound_at_every_step; [exact Hj |]. apply eligible_done. apply C. exact Hd.
   - destruct j as [|j]; [lia|]. cbn [trace] in Hi, Hj.
     destruct (step ds s o) as [s' out] eqn:Es. cbn in Hi, Hj.
-    eapply (IH s' i j); try eassumption; [|lia].
-    replace s' with (fst (step ds s o)) by (rewrite Es; reflexivity). apply step_inv; exact Hinv.
+    eapply (IH s' i j); try eassumption. lia.
 Qed.
 
 (* ---- the judge ---- *)
@@ -419,7 +434,7 @@ Lemma step_ok_model ds uni s o :
 Proof.
   intros Hwf. destruct (step ds s o) as [s' out] eqn:Es. unfold step_ok. cbn [o_sets].
   rewrite sessions_concat.
-  destruct o as [d|b|b|].
+  destruct o as [d|b|b| |b].
   - cbn [step] in Es. destruct (deliver ds (st s) d) as [s1 r] eqn:Ed. inversion Es; subst s' out. clear Es.
     cbn [op_keys] in Hwf.
     assert (Hs : forall k, In k (signed_of r) -> eligible ds (lookup (st s) k) = true /\ In k (keys_of d)).
@@ -453,14 +468,14 @@ Proof.
   - cbn [step] in Es. destruct ds; try (inversion Es; reflexivity).
     destruct (subset b (inflight s)); inversion Es; reflexivity.
   - inversion Es; reflexivity.
+  - cbn [step] in Es. destruct ds; inversion Es; reflexivity.
 Qed.
 
 Lemma final_ok_model ds uni s o :
-  inv ds s ->
   final_ok uni (combine uni (snapshot uni (st s)))
            (combine uni (snapshot uni (st (fst (step ds s o))))) = true.
 Proof.
-  intros Hinv. unfold final_ok. apply forallb_forall. intros k Hin.
+  unfold final_ok. apply forallb_forall. intros k Hin.
   assert (Hk : kmem k uni = true) by (apply kmem_In; exact Hin).
   rewrite !lookup_view by exact Hk.
   destruct (is_done (lookup (st s) k)) eqn:Hd; [|reflexivity].
@@ -468,14 +483,13 @@ Proof.
 Qed.
 
 Lemma hist_ok_model ds uni ops : forall s,
-  inv ds s -> wf_ops uni ops = true ->
+  wf_ops uni ops = true ->
   hist_ok ds uni (combine uni (snapshot uni (st s))) ops (model_obs ds uni s ops) = true.
 Proof.
-  induction ops as [|o r IH]; intros s Hinv Hwf; cbn [hist_ok model_obs]; [reflexivity|].
+  induction ops as [|o r IH]; intros s Hwf; cbn [hist_ok model_obs]; [reflexivity|].
   cbn [wf_ops forallb] in Hwf. apply andb_true_iff in Hwf as [Hwo Hwr].
   pose proof (step_ok_model ds uni s o Hwo) as Hstep.
-  pose proof (final_ok_model ds uni s o Hinv) as Hfin.
-  pose proof (step_inv ds s o Hinv) as Hinv'.
+  pose proof (final_ok_model ds uni s o) as Hfin.
   destruct (step ds s o) as [s' out] eqn:Es. cbn [fst] in *. cbn [o_snap].
   assert (Hlen : length (snapshot uni (st s')) = length uni) by (unfold snapshot; apply map_length).
   rewrite Hlen, Nat.eqb_refl. cbn [andb].
@@ -512,9 +526,10 @@ Proof.
     try discriminate; [contradiction|].
   apply andb_true_iff in H as [H Hr]. apply andb_true_iff in H as [H Hf]. apply andb_true_iff in H as [_ Hs].
   destruct Hin as [->|Hin].
-  - intros Hk. destruct o as [d|b|b|].
+  - intros Hk. destruct o as [d|b|b| |b].
     + destruct (step_ok_reading _ _ _ _ Hs) as [_ [A _]]. destruct (A k Hk) as [A1 _].
       rewrite (eligible_done ds _ Hd) in A1. discriminate.
+    + cbn in Hs. destruct (concat (o_sets ob)); [contradiction | discriminate].
     + cbn in Hs. destruct (concat (o_sets ob)); [contradiction | discriminate].
     + cbn in Hs. destruct (concat (o_sets ob)); [contradiction | discriminate].
     + cbn in Hs. destruct (concat (o_sets ob)); [contradiction | discriminate].
